@@ -97,7 +97,7 @@ class C03(Sim):
             "order of the lazy caches); non-trivial = >= 3 judged queries from >= 2 families")
     FAULT_KINDS = ["cache_drop"]
     PROBES = ["interior_edge_ring", "border_edge_ring", "sort_off", "query_after_drop", "miss_query", "interior_vertex", "boundary_extracted",
-              "standalone_extracted", "standalone_outward_checked", "mixed_orientation", "fresh_single_query", "reordered_pass"]
+              "standalone_extracted", "standalone_outward_checked", "mixed_orientation", "fresh_single_query", "reordered_pass", "second_volume"]
     QUICK_RUNS = 3000
     THOROUGH_RUNS = 300000
     BLOCK = 25
@@ -118,7 +118,11 @@ class C03(Sim):
             cl.append("boundary")
         if rng.chance(0.4):
             cl.append(rng.choice(fams))
-        return {"world": {"points": pts, "cells": cells, "orient": mode}, "sort": rng.chance(0.8), "clients": cl,
+        world2 = None
+        if "boundary" in cl and rng.chance(0.5):
+            p2, c2, m2 = volgen.gen_tets(rng.fork("world2"), rng.choice([1, 4, 8]))
+            world2 = {"points": p2, "cells": c2, "orient": m2}  # a second, unrelated volume in the same process (cross-object histories)
+        return {"world": {"points": pts, "cells": cells, "orient": mode}, "world2": world2, "sort": rng.chance(0.8), "clients": cl,
                 "max_steps": rng.randint(5, 35 if tier == "quick" else 70), "burst": rng.choice([0.2, 0.5, 0.8]),
                 "miss_rate": rng.choice([0.1, 0.3]), "drop_rate": rng.choice([0.05, 0.15, 0.3]),
                 "ops_off": rng.subset(sorted(Q), 0.15), "n_fresh": rng.randint(1, 5)}
@@ -129,6 +133,11 @@ class C03(Sim):
         M.config.sort_neighborhoods = bool(cfg["sort"])
         self.mesh = build_mesh(cfg["world"])
         self.ref = self._ref_for(self.mesh)
+        self.other = self.ref_other = None
+        if cfg.get("world2"):
+            self.other = build_mesh(cfg["world2"])
+            w2 = cfg["world2"]
+            self.ref_other = RefVolume(w2["points"], w2["cells"], [list(f) for f in self.other.faces], [tuple(e) for e in self.other.edges])
         self._check_lists()
         self.judged, self.fams, self.first_touch = [], set(), []
         self.dropped = False
@@ -215,10 +224,13 @@ class C03(Sim):
         if c == "dropper":
             return {"c": c, "op": "drop_connectivity"}
         if c == "boundary":
-            return {"c": c, "op": r.choice(["enable_boundary", "standalone_boundary", "enable_boundary"])}
+            return {"c": c, "op": r.choice(["enable_boundary", "standalone_boundary", "enable_boundary"] + (["enable_boundary_other"] if self.other is not None else []))}
         qs = [q for q in sorted(Q) if FAMILY[q] == c and q not in cfg["ops_off"]] or [q for q in sorted(Q) if FAMILY[q] == c]
         q = r.choice(qs)
         return {"c": c, "op": q, "args": self._gen_args(r, q)}
+
+    def applicable(self, ev):
+        return ev["op"] != "enable_boundary_other" or self.other is not None
 
     # ------------------------------------------------------------------ queries
     def _touch_state(self, mesh):
@@ -348,6 +360,13 @@ class C03(Sim):
         if op == "standalone_boundary":
             self._do_standalone(mesh, self.ref, op)
             self.judged.append(ev)
+            self.fams.add("boundary")
+            return "ok"
+        if op == "enable_boundary_other":
+            # the boundary of ANOTHER volume is extracted in between: nothing of it may show in this mesh's maps (and the reverse)
+            self.probes["second_volume"] += 1
+            save_orient = self.cfg["world"]["orient"]
+            self._do_enable(self.other, self.ref_other, op)
             self.fams.add("boundary")
             return "ok"
         before = self._touch_state(mesh)
